@@ -1117,6 +1117,14 @@ func (t *Type) Ready() error {
 	if t.Dict == nil {
 		panic("Type.Ready Dict is nil")
 	}
+	// The properties of a type made in Go apply to its instances only
+	if t.Flags&TPFLAGS_HEAPTYPE == 0 {
+		for _, v := range t.Dict {
+			if p, ok := v.(*Property); ok && p.objclass == nil {
+				p.objclass = t
+			}
+		}
+	}
 	t.Flags = (t.Flags &^ TPFLAGS_READYING) | TPFLAGS_READY
 	return nil
 }
